@@ -313,3 +313,155 @@ func IsErrorType(t types.Type) bool {
 // SuccOnTrue / SuccOnFalse return the successors of the block ending in iff.
 func SuccOnTrue(iff *ssa.If) *ssa.BasicBlock  { return iff.Block().Succs[0] }
 func SuccOnFalse(iff *ssa.If) *ssa.BasicBlock { return iff.Block().Succs[1] }
+
+// EdgeFacts returns the facts that hold when control flows over the CFG
+// edge from→to: the facts at from plus the branch taken.
+func EdgeFacts(from, to *ssa.BasicBlock) []Fact {
+	out := FactsAt(from)
+	if len(from.Instrs) > 0 {
+		if iff, ok := from.Instrs[len(from.Instrs)-1].(*ssa.If); ok && from.Succs[0] != from.Succs[1] {
+			if from.Succs[0] == to {
+				out = append(out, Fact{iff.Cond, true, iff})
+			} else if from.Succs[1] == to {
+				out = append(out, Fact{iff.Cond, false, iff})
+			}
+		}
+	}
+	return out
+}
+
+// FindCycle searches fn's CFG for a cycle that avoids the removed blocks and
+// edges. It returns the blocks of one such cycle or nil.
+func FindCycle(fn *ssa.Function, removedBlock func(*ssa.BasicBlock) bool, removedEdge func(from, to *ssa.BasicBlock) bool) []*ssa.BasicBlock {
+	const (
+		white = 0
+		grey  = 1
+		black = 2
+	)
+	color := map[*ssa.BasicBlock]int{}
+	var stack []*ssa.BasicBlock
+	var cycle []*ssa.BasicBlock
+	var dfs func(b *ssa.BasicBlock) bool
+	dfs = func(b *ssa.BasicBlock) bool {
+		color[b] = grey
+		stack = append(stack, b)
+		for _, s := range b.Succs {
+			if removedBlock != nil && removedBlock(s) {
+				continue
+			}
+			if removedEdge != nil && removedEdge(b, s) {
+				continue
+			}
+			switch color[s] {
+			case grey:
+				for i, x := range stack {
+					if x == s {
+						cycle = append([]*ssa.BasicBlock{}, stack[i:]...)
+						return true
+					}
+				}
+			case white:
+				if dfs(s) {
+					return true
+				}
+			}
+		}
+		stack = stack[:len(stack)-1]
+		color[b] = black
+		return false
+	}
+	for _, b := range fn.Blocks {
+		if removedBlock != nil && removedBlock(b) {
+			continue
+		}
+		if color[b] == white {
+			if dfs(b) {
+				return cycle
+			}
+		}
+	}
+	return nil
+}
+
+// BoundedLoopEdge reports whether the edge from→to enters the body of a loop
+// whose trip count is fixed before entry: a range loop (next over map/string
+// or index below len) or a counted loop "i < N" with i incremented by a
+// positive constant on every way around and N invariant.
+func BoundedLoopEdge(from, to *ssa.BasicBlock) bool {
+	if len(from.Instrs) == 0 {
+		return false
+	}
+	iff, ok := from.Instrs[len(from.Instrs)-1].(*ssa.If)
+	if !ok || from.Succs[0] != to {
+		return false
+	}
+	// range over map/string: cond = extract #0 of next
+	if ex, ok := iff.Cond.(*ssa.Extract); ok && ex.Index == 0 {
+		if _, ok := ex.Tuple.(*ssa.Next); ok {
+			return true
+		}
+	}
+	// i < N
+	if bo, ok := iff.Cond.(*ssa.BinOp); ok && (bo.Op == token.LSS || bo.Op == token.LEQ) {
+		if isCounter(bo.X, from) && invariantIn(bo.Y, from) {
+			return true
+		}
+	}
+	return false
+}
+
+// isCounter: v is phi(c0, phi+k) or (phi+k) with k>0 constant.
+func isCounter(v ssa.Value, at *ssa.BasicBlock) bool {
+	v = Strip(v)
+	if cv, ok := v.(*ssa.Convert); ok {
+		v = cv.X
+	}
+	inc := func(x ssa.Value, ph *ssa.Phi) bool {
+		bo, ok := x.(*ssa.BinOp)
+		if !ok || bo.Op != token.ADD {
+			return false
+		}
+		k, okk := ConstInt(bo.Y)
+		return okk && k > 0 && bo.X == ssa.Value(ph)
+	}
+	if ph, ok := v.(*ssa.Phi); ok {
+		n := 0
+		for _, e := range ph.Edges {
+			if inc(e, ph) {
+				n++
+			} else if _, isC := e.(*ssa.Const); !isC {
+				if !invariantIn(e, at) {
+					return false
+				}
+			}
+		}
+		return n >= 1
+	}
+	if bo, ok := v.(*ssa.BinOp); ok && bo.Op == token.ADD {
+		if ph, ok := bo.X.(*ssa.Phi); ok {
+			if k, okk := ConstInt(bo.Y); okk && k > 0 {
+				for _, e := range ph.Edges {
+					if e == ssa.Value(bo) {
+						return true
+					}
+				}
+			}
+		}
+	}
+	return false
+}
+
+// invariantIn: v is a constant, parameter, or defined in a block that strictly
+// dominates at (so it does not change while the loop at `at` runs), or is
+// len() of such a value.
+func invariantIn(v ssa.Value, at *ssa.BasicBlock) bool {
+	v = Strip(v)
+	switch x := v.(type) {
+	case *ssa.Const, *ssa.Parameter, *ssa.FreeVar:
+		return true
+	case ssa.Instruction:
+		b := x.Block()
+		return b != at && b.Dominates(at)
+	}
+	return false
+}
